@@ -140,7 +140,7 @@ func g8aWaitLeaderSelf(s *Store, d time.Duration) error {
 	deadline := time.Now().Add(d)
 	for time.Now().Before(deadline) {
 		if s.IsLeader() {
-			if err := s.Barrier(); err == nil {
+			if err := g8aBarrier(s, 10*time.Second); err == nil {
 				return nil
 			}
 		}
@@ -574,3 +574,20 @@ func G8aNumSnapshots(s *Store) int {
 	}
 	return -1
 }
+
+// g8aBarrier is Store.Barrier with a bound: raft's barrier future has no
+// deadline of its own once the entry is appended (a leader that cannot reach
+// a quorum would block the caller forever).
+func g8aBarrier(s *Store, d time.Duration) error {
+	ch := make(chan error, 1)
+	go func() { ch <- s.Barrier() }()
+	select {
+	case err := <-ch:
+		return err
+	case <-time.After(d):
+		return fmt.Errorf("barrier not completed within %s", d)
+	}
+}
+
+// G8aBarrier is the exported alias.
+var G8aBarrier = g8aBarrier
